@@ -46,6 +46,7 @@ def run(idx, rep, tier):
     c08.copies(idx, rep, "R3")
     r4(idx, rep)
     r5(idx, rep)
+    K.mutable_defaults(idx, rep, "R1")
     rep.rule("R6", "a named file resolves by what was registered last, whatever was registered before (C11 store sequences)")
     from . import c11
     n, msg = c11.run_sequences(idx, 3)
@@ -210,6 +211,44 @@ def r2(idx, rep):
         if got != hs:
             bad = bad or f"headers {hs!r} are cached as {list(fs.files.values())[-1]!r} and read back as {got!r}: a warm cache gives a later process different headers than the cold run"
     rep.check(bad is None, "R2", f"{fw.file}::header cache round trip", bad or f"{len(header_sets)} header lists", K.where(fw, fw.node))
+    # which cache states are a hit: only a complete entry (line counts AND headers). After writing a complete entry one of the two
+    # files is removed (an interrupted earlier process, a cleaned cache directory): the cacher must count the file again
+    ff = idx.method("FileCacher", "_find_lines_and_headers")
+    rep.analysed(ff)
+    bad = None
+    for drop in ((), ("json",), ("csv",), ("json", "csv")):
+        fs = ModelFS()
+        h = dict(stdlib)
+        h["open"] = fs.open
+        h["lm.dump"] = lambda i, c, r, a, k: '{"n": 1}'
+        h["LineMonitor"] = lambda i, c, r, a, k: Obj("LM2")
+        h["LM2.load"] = lambda i, c, r, a, k: i.record_call("load", a[0])
+        h["LineCounter"] = lambda i, c, r, a, k: Obj("lc")
+        h["lc.get_lines_and_headers"] = lambda i, c, r, a, k: (i.record_call("count"), (Obj("COUNTED"), ["a", "b"]))[1]
+        h["COUNTED.dump"] = lambda i, c, r, a, k: '{"n": 1}'
+
+        def program(it, drop=drop, fs=fs):
+            it.call_function(fw, {"__pos__": ["/data/f.csv", Obj("lm"), ["a", "b"]]}, "self")
+            for suffix in drop:
+                for k in [k for k in fs.files if k.endswith("." + suffix)]:
+                    del fs.files[k]
+            it.call_function(ff, {"__pos__": ["/data/f.csv"]}, "self")
+            return it.store.get("self.pathed_lines_and_headers", {}).get("/data/f.csv")
+
+        it = Interp(idx, types={"self": "FileCacher", "self.cache": "Cache"}, inline_all={"FileCacher"},
+                    inline={"Cache.cache_text", "Cache.cached_text", "Cache._cache_name"},
+                    handlers=dict(h, **{"self.cache._cachedir": lambda i, c, r, a, k: "CACHE"}), unknown_calls="residual")
+        ps = it.run_program(program, {"self.pathed_lines_and_headers": {}})
+        for p in ps:
+            counted = bool(p.calls("count"))
+            if p.result[0] != "return":
+                bad = bad or f"cache entry without {list(drop)}: {p.result}"
+            elif counted != bool(drop):
+                bad = bad or (f"cache entry with {'nothing' if not drop else ' and '.join(drop)} missing: the file is {'counted again' if counted else 'NOT counted again'} "
+                              f"and the cacher keeps {p.result[1]!r}; only a complete entry (line counts and headers) is a hit")
+            elif p.result[1] is None or p.result[1][1] != ["a", "b"]:
+                bad = bad or f"cache entry without {list(drop)}: headers kept are {p.result[1]!r}, documented ['a', 'b']"
+    rep.check(bad is None, "R2", f"{ff.file}::FileCacher._find_lines_and_headers partial cache entries", bad or "4 cache states", K.where(ff, ff.node))
     # cache key: distinct paths (also with the same file name) get distinct keys; the same path the same key
     fn = idx.method("Cache", "_cache_name")
     keys = {}
